@@ -460,7 +460,9 @@ def propose(rng: random.Random, pool: list[dict], families: list[str] | None = N
             return rng.choice(["iadd", "isub", "imul"]), [x["ref"], y["ref"] if y and rng.random() < 0.6 else ["py", 2]], {}
         return None
     if fam == "sort":
-        if not _is_num(d) or impl.is_nullable(d):
+        # known finding (C12): TopK in onnxruntime dies with SIGFPE when an axis other than the sorted one
+        # has extent 0 -- an uncatchable interpreter crash, so the generators keep sort away from empty inputs
+        if not _is_num(d) or impl.is_nullable(d) or 0 in shp:
             return None
         c = rng.random()
         if c < 0.35 and r >= 1:
@@ -748,3 +750,11 @@ def where_cause(prog, j, vals, evals) -> str:
     except Exception:
         pass
     return "general"
+
+
+CRASHES_ON_EMPTY = {"sort", "argsort"}
+
+
+def crash_prone(prog) -> bool:
+    """Programs whose evaluation at a zero extent may kill the interpreter (see known finding C12)."""
+    return any(st["op"] in CRASHES_ON_EMPTY for st in prog["steps"])
